@@ -112,6 +112,46 @@ func ruleCopyIsolation(r *Report, rule string) {
 			return true
 		})
 		if rv == nil {
+			// literal style: return &T{F: s.F, ...}: every configuration field must be carried
+			var lit *ast.CompositeLit
+			ast.Inspect(fi.Decl.Body, func(x ast.Node) bool {
+				if cl, ok := x.(*ast.CompositeLit); ok && lit == nil {
+					if nt := namedOf(info.TypeOf(cl)); nt != nil && recv != nil && namedOf(recv.Type()) == nt {
+						lit = cl
+					}
+				}
+				return true
+			})
+			if lit == nil {
+				continue
+			}
+			stt, ok := namedOf(recv.Type()).Underlying().(*types.Struct)
+			if !ok {
+				continue
+			}
+			r.Fn(fi)
+			keyed := map[string]ast.Expr{}
+			for _, el := range lit.Elts {
+				if kv, ok := el.(*ast.KeyValueExpr); ok {
+					if id, ok := kv.Key.(*ast.Ident); ok {
+						keyed[id.Name] = kv.Value
+					}
+				}
+			}
+			for i := 0; i < stt.NumFields(); i++ {
+				f := stt.Field(i)
+				n++
+				switch f.Type().Underlying().(type) {
+				case *types.Slice, *types.Map:
+					v, has := keyed[f.Name()]
+					shared := has && isSelectorChain(v)
+					r.Ob(rule, fi.Name+"/"+f.Name()+"-not-shared", fi.Decl.Pos(), !shared, "the slice/map field "+f.Name()+" of the copy must not be the original's (scratch buffers are appended to by concurrently searching alias members)")
+				default:
+					v, has := keyed[f.Name()]
+					carried := has && strings.HasSuffix(exprStr(v), "."+f.Name())
+					r.Ob("K9b-copy-carries-every-field", fi.Name+"/"+f.Name()+"-carried", fi.Decl.Pos(), carried, "Copy() builds the copy field by field; configuration field "+f.Name()+" is not carried over, so the per-member requests an alias builds from the copy sort differently from the original request (merged order differs from a single index)")
+				}
+			}
 			continue
 		}
 		stt, ok := rv.Type().Underlying().(*types.Struct)
